@@ -183,10 +183,6 @@ def run(tier):
     if cproc.returncode != 0:
         raise vlib.Inconclusive("codecdrv failed: %s" % (so + se)[-3000:])
     cres = json.load(open(cout))
-    if cres.get("model_mismatch"):
-        raise vlib.Inconclusive("Codec.tla does not describe the real encodings: %s" % cres["model_mismatch"][:6])
-    if cres.get("harness_errors"):
-        raise vlib.Inconclusive("codecdrv harness problems: %s" % cres["harness_errors"][:6])
     if cres["reached"] == 0:
         raise vlib.Inconclusive("no case reached a decoder")
     # one finding per (type, field, corruption, rule, class): a known-findings entry may name any subset of these fields
@@ -235,4 +231,11 @@ def run(tier):
         "statements that hold with overwhelming probability (random bytes are not a valid encoding, a random scalar is non-zero) are asserted on the real code only",
     ]
     rep.notes.append("codecdrv: build %.1fs run %.1fs" % (cres.get("build_s", 0), cres.get("run_s", 0)))
+    # a structural disagreement between Codec.tla and the real encodings, or a problem of the driver, decides nothing - unless
+    # the run also shows a violation nobody knew: then that is what gets reported
+    if not rep.unknown():
+        if cres.get("model_mismatch"):
+            raise vlib.Inconclusive("Codec.tla does not describe the real encodings: %s" % cres["model_mismatch"][:6])
+        if cres.get("harness_errors"):
+            raise vlib.Inconclusive("codecdrv harness problems: %s" % cres["harness_errors"][:6])
     return rep.finish()
